@@ -441,12 +441,11 @@ pub fn msg_from_erbium(p: &dnspkt::DNSPkt) -> Msg {
     if p.ra {
         flags |= 0x0080;
     }
-    // erbium names wire bit 0x0040 "ad" and 0x0020 "cd"; keep the wire positions it uses
     if p.ad {
-        flags |= 0x0040;
+        flags |= 0x0020;
     }
     if p.cd {
-        flags |= 0x0020;
+        flags |= 0x0010;
     }
     flags |= p.rcode.0 & 0xf;
     let mut additional: Vec<Rr> = p.additional.iter().map(rr_from_erbium).collect();
